@@ -31,39 +31,40 @@ func c01Cone(c *eng.Ctx, r *eng.Report, rule string) *eng.Cone {
 
 // reviewedND: construct key → (class, reason). Classes are re-verified mechanically.
 var reviewedND = map[string][2]string{
-	"map-range:(*service.RefundManager).Add#0":                            {"keyed-commutative", "each iteration merges one height's refund list into the slot keyed by that height; slots of distinct keys are disjoint"},
-	"map-range:(*service.RefundManager).CheckAndMove#0":                   {"keyed-commutative", "credits each address by its own amount (commutative big.Int addition per distinct key) and removes the ranged key"},
-	"map-range:(*service.RewardCalculator).CalculateReward#0":             {"keyed-commutative", "adds one RefundInfo per distinct address; the only consumer, RefundManager.Add, writes one slot per id"},
-	"map-range:(*service.RewardCalculator).calculateRewardPerBlock#0":     {"keyed-commutative", "writes result[addr] += share for the ranged proposer only"},
-	"map-range:(*service.RewardCalculator).calculateRewardPerBlock#1":     {"keyed-commutative", "writes result[addr] += share for the ranged validator only"},
-	"map-range:(*storage/account.AccountDB).Finalise#0":                   {"trie-order-independent", "feeds the account trie, whose root does not depend on insertion order (C02)"},
-	"map-range:(*storage/account.accountObject).updateTrie#0":             {"trie-order-independent", "feeds the storage trie (C02); deletes the ranged key"},
-	"map-range:(*storage/account.accountObject).getAllRefund#0":           {"keyed-commutative", "copies entries into a result map keyed by the same key"},
-	"map-range:(*storage/trie.cachedNode).childs#0":                       {"order-insensitive-consumer", "child hash list is only used for reference counting in the node cache"},
-	"map-range:service.ChangeAssets#0":                                    {"sorted-after", "collects the keys, sorts them, and only then transfers (fix 9e782cd)"},
-	"map-range:(*core.VMExecutor).generateCode#0":                         {"out-of-scope", "sub-chain only (common.IsSub()): builds call data for the genesis economy contract; effect on state depends on that contract's bytecode — excluded from the claim, listed"},
-	"global-store:(*storage/account.AccountDB).loadContractCache#0":       {"write-once-cache", "lazy cache of the immutable RPG binding address read from state; AddERC20Binding refuses to overwrite the binding"},
-	"global-store:common.GetBlocksPerEpoch#0":                             {"config-constant", "lazy initialisation of a constant derived from configuration"},
-	"global-store:common.GetRefundBlocks#0":                               {"config-constant", "lazy initialisation of a constant derived from configuration"},
-	"global-store:common.GetRewardBlocks#0":                               {"config-constant", "lazy initialisation of a constant derived from configuration"},
-	"cache:core.blockChain.topBlocks":                 {"store-cache", "LRU in front of the height index; entries are removed when a block is removed (remove → topBlocks.Remove), so it answers as the store does; the read itself is reviewed in storeReads (calcDifficulty)"},
-	"cache:storage/account.AccountDB.accountObjects":  {"state-local", "per-AccountDB object cache: part of the state object being executed on, not shared between states"},
-	"cache:storage/account.storageDB.codeCache":       {"content-addressed", "contract code keyed by its hash: a hit and a miss return the same bytes"},
-	"cache:storage/account.storageDB.codeSizeCache":   {"content-addressed", "code size keyed by code hash"},
-	"clock:(*core.VMExecutor).Execute#0":                                  {"casting-only", "start time of block casting"},
-	"clock:(*core.VMExecutor).Execute#1":                                  {"casting-only", "casting time-out (the proposer's own packing limit; verifiers re-execute the packed list)"},
-	"clock:(*core.VMExecutor).Execute#2":                                  {"log-only", "elapsed time for the performance log"},
+	"map-range:(*service.RefundManager).Add#0":                        {"keyed-commutative", "each iteration merges one height's refund list into the slot keyed by that height; slots of distinct keys are disjoint"},
+	"map-range:(*service.RefundManager).CheckAndMove#0":               {"keyed-commutative", "credits each address by its own amount (commutative big.Int addition per distinct key) and removes the ranged key"},
+	"map-range:(*service.RewardCalculator).CalculateReward#0":         {"keyed-commutative", "adds one RefundInfo per distinct address; the only consumer, RefundManager.Add, writes one slot per id"},
+	"map-range:(*service.RewardCalculator).calculateRewardPerBlock#0": {"keyed-commutative", "writes result[addr] += share for the ranged proposer only"},
+	"map-range:(*service.RewardCalculator).calculateRewardPerBlock#1": {"keyed-commutative", "writes result[addr] += share for the ranged validator only"},
+	"map-range:(*storage/account.AccountDB).Finalise#0":               {"trie-order-independent", "feeds the account trie, whose root does not depend on insertion order (C02)"},
+	"map-range:(*storage/account.accountObject).updateTrie#0":         {"trie-order-independent", "feeds the storage trie (C02); deletes the ranged key"},
+	"map-range:(*storage/account.accountObject).getAllRefund#0":       {"keyed-commutative", "copies entries into a result map keyed by the same key"},
+	"map-range:(*storage/trie.cachedNode).childs#0":                   {"order-insensitive-consumer", "child hash list is only used for reference counting in the node cache"},
+	"map-range:service.ChangeAssets#0":                                {"sorted-after", "collects the keys, sorts them, and only then transfers (fix 9e782cd)"},
+	"map-range:(*core.VMExecutor).generateCode#0":                     {"out-of-scope", "sub-chain only (common.IsSub()): builds call data for the genesis economy contract; effect on state depends on that contract's bytecode — excluded from the claim, listed"},
+	"global-store:(*storage/account.AccountDB).loadContractCache#0":   {"write-once-cache", "lazy cache of the immutable RPG binding address read from state; AddERC20Binding refuses to overwrite the binding"},
+	"global-store:storage/rlp.cachedTypeInfo1#0":                      {"type-keyed-memo", "RLP codec table memoised per Go type (and struct tags): a hit and a miss yield the same encoder/decoder, guarded by typeCacheMutex"},
+	"global-store:common.GetBlocksPerEpoch#0":                         {"config-constant", "lazy initialisation of a constant derived from configuration"},
+	"global-store:common.GetRefundBlocks#0":                           {"config-constant", "lazy initialisation of a constant derived from configuration"},
+	"global-store:common.GetRewardBlocks#0":                           {"config-constant", "lazy initialisation of a constant derived from configuration"},
+	"cache:core.blockChain.topBlocks":                                 {"store-cache", "LRU in front of the height index; entries are removed when a block is removed (remove → topBlocks.Remove), so it answers as the store does; the read itself is reviewed in storeReads (calcDifficulty)"},
+	"cache:storage/account.AccountDB.accountObjects":                  {"state-local", "per-AccountDB object cache: part of the state object being executed on, not shared between states"},
+	"cache:storage/account.storageDB.codeCache":                       {"content-addressed", "contract code keyed by its hash: a hit and a miss return the same bytes"},
+	"cache:storage/account.storageDB.codeSizeCache":                   {"content-addressed", "code size keyed by code hash"},
+	"clock:(*core.VMExecutor).Execute#0":                              {"casting-only", "start time of block casting"},
+	"clock:(*core.VMExecutor).Execute#1":                              {"casting-only", "casting time-out (the proposer's own packing limit; verifiers re-execute the packed list)"},
+	"clock:(*core.VMExecutor).Execute#2":                              {"log-only", "elapsed time for the performance log"},
 }
 
 // storeReads: reviewed reads of the block/group stores from inside the cone
 // (caller → accessor); anything else consults process-local chain state.
 var storeReads = map[string]string{
-	"executor.getBlockHashFn$1→GetBlockHash":                              "BLOCKHASH: served by context[\"chain\"], which is the fork-aware SyncProcessor when situation == \"fork\"",
-	"vm.opBlockhash→GetBlockHash":                                         "BLOCKHASH opcode: the GetHash function value installed by the contract executor from context[\"chain\"] (fork-aware on the fork edge)",
-	"(*core.VMExecutor).calcDifficulty→QueryBlockHeaderByHeight":          "looks GetRewardBlocks() heights back, below any fork window, so both branches agree on that header",
+	"executor.getBlockHashFn$1→GetBlockHash":                               "BLOCKHASH: served by context[\"chain\"], which is the fork-aware SyncProcessor when situation == \"fork\"",
+	"vm.opBlockhash→GetBlockHash":                                          "BLOCKHASH opcode: the GetHash function value installed by the contract executor from context[\"chain\"] (fork-aware on the fork edge)",
+	"(*core.VMExecutor).calcDifficulty→QueryBlockHeaderByHeight":           "looks GetRewardBlocks() heights back, below any fork window, so both branches agree on that header",
 	"(*service.RefundManager).getRefundHeight→GetAvailableGroupsByMinerId": "group lookup through groupChainHelper / forkHelper selected by situation",
-	"(*core.VMExecutor).calcSubReward→GetGroupById":                       "sub-chain reward (IsSub only)",
-	"(*service.RewardCalculator).calculateRewardPerBlock→GetGroupById":    "group of the block being executed, through forkHelper on the fork edge",
+	"(*core.VMExecutor).calcSubReward→GetGroupById":                        "sub-chain reward (IsSub only)",
+	"(*service.RewardCalculator).calculateRewardPerBlock→GetGroupById":     "group of the block being executed, through forkHelper on the fork edge",
 }
 
 func c01(c *eng.Ctx, r *eng.Report) {
@@ -189,8 +190,25 @@ func classHolds(c *eng.Ctx, h eng.NDHit, class string) string {
 		}
 	case "global-store":
 		// shape: the store is under a `== zero` test of the same variable (lazy init) or in a function only called under one
-		st := h.Instr.(*ssa.Store)
-		g := st.Addr.(*ssa.Global)
+		st, isStore := h.Instr.(*ssa.Store)
+		if class == "type-keyed-memo" {
+			// a map keyed by a Go type: the key type of the written map must contain a reflect.Type
+			mu, isMU := h.Instr.(*ssa.MapUpdate)
+			if !isMU || !strings.Contains(mu.Map.Type().Underlying().(*types.Map).Key().Underlying().String(), "reflect.Type") {
+				return "the written package-level map is no longer keyed by reflect.Type"
+			}
+			return ""
+		}
+		if !isStore {
+			return "reviewed as a plain package-variable store but is now a map write"
+		}
+		g, isG := st.Addr.(*ssa.Global)
+		if !isG {
+			if class == "config-constant" {
+				return "store is no longer to the package variable itself"
+			}
+			return ""
+		}
 		if class == "config-constant" {
 			ok := false
 			for _, cd := range eng.CondsAt(st) {
